@@ -36,6 +36,7 @@ func checkC17(r *core.Run) {
 	c17KeyComplete(r, p)
 	c17Recognisers(r, p, "R-C17-sym")
 	c17OneRepresentation(r, p, "R-C17-sym")
+	c17ValueFollowsMembership(r, p, "R-C17-sym")
 }
 
 // c17RemoveFound: when an output leaves the set, the entry removed from the address's list is the one that
@@ -924,4 +925,82 @@ func c17OneRepresentation(r *core.Run, p *core.Program, rule string) {
 		}
 	}
 	r.Check(n >= 2, rule, "one-representation/sites", "-", fmt.Sprintf("%d places where a record is given a map", n), fmt.Sprintf("%d places where a record is given a map (expected at least 2)", n))
+}
+
+// c17ValueFollowsMembership: the total kept per address is the sum of the outputs listed for it.  In NewUTXO
+// every path of the loop over a transaction's outputs that enters an output into the record (a map insert or
+// an append to the list) also adds the output's value to the total in the same pass: the addition dominates
+// the insertion, or every way from the insertion to the end of the pass goes through it.
+func c17ValueFollowsMembership(r *core.Run, p *core.Program, rule string) {
+	const key = "total-follows-membership"
+	fn := p.Func("client/wallet.NewUTXO")
+	if fn == nil {
+		r.Fail(rule, key, "-", "NewUTXO not found")
+		return
+	}
+	var inserts, adds []ssa.Instruction
+	an.Instrs(fn, func(i ssa.Instruction) {
+		switch x := i.(type) {
+		case *ssa.MapUpdate:
+			if f, _ := an.FieldOf(loadAddr(x.Map)); f == "client/wallet.OneAllAddrBal.unspMap" {
+				inserts = append(inserts, i)
+			}
+		case *ssa.Store:
+			f, _ := an.FieldOf(x.Addr)
+			if f == "client/wallet.OneAllAddrBal.unsp" {
+				if c, ok := x.Val.(*ssa.Call); ok && an.CallName(c) == "builtin.append" {
+					inserts = append(inserts, i)
+				}
+			}
+			if f == "client/wallet.OneAllAddrBal.Value" {
+				if bo, ok := x.Val.(*ssa.BinOp); ok && bo.Op == token.ADD {
+					adds = append(adds, i)
+				}
+			}
+		}
+	})
+	addBlk := map[*ssa.BasicBlock]bool{}
+	for _, a := range adds {
+		addBlk[a.Block()] = true
+	}
+	var bad []string
+	for _, ins := range inserts {
+		dominated := false
+		for _, a := range adds {
+			if a.Block() == ins.Block() || a.Block().Dominates(ins.Block()) {
+				dominated = true
+			}
+		}
+		if dominated {
+			continue
+		}
+		// every way on from the insertion passes an addition before the pass ends (head of the loop over the
+		// outputs - the outermost loop around the insertion - or return)
+		var passHead *ssa.BasicBlock
+		passN := 0
+		for _, h := range fn.Blocks {
+			if body := an.LoopBody(h); body != nil && body[ins.Block()] && len(body) > passN {
+				passHead, passN = h, len(body)
+			}
+		}
+		seen := map[*ssa.BasicBlock]bool{}
+		st := append([]*ssa.BasicBlock{}, ins.Block().Succs...)
+		for len(st) > 0 {
+			b := st[len(st)-1]
+			st = st[:len(st)-1]
+			if seen[b] || addBlk[b] {
+				continue
+			}
+			seen[b] = true
+			_, isRet := b.Instrs[len(b.Instrs)-1].(*ssa.Return)
+			if isRet || b == passHead {
+				bad = append(bad, "the output entered at "+p.Pos(an.InstrPos(ins))+" reaches the end of the pass without its value being added to the address total")
+				break
+			}
+			st = append(st, b.Succs...)
+		}
+	}
+	sort.Strings(bad)
+	r.Check(len(inserts) >= 3 && len(adds) >= 1 && len(bad) == 0, rule, key, p.Pos(fn.Pos()), fmt.Sprintf("%d insertions, each with its value added in the same pass", len(inserts)),
+		fmt.Sprintf("%d insertions, %d additions: %s", len(inserts), len(adds), strings.Join(bad, "; ")))
 }
